@@ -14,12 +14,14 @@ import (
 
 func init() {
 	register(&Prop{
-		ID:    "C11",
-		Title: "Concurrent use of the public API is free of data races",
-		Explanation: "Decides structural necessary conditions of race freedom: R11.1 (guarded fields, plus the annotated entry config.rng: every use of the collection's random source happens under one lock held exclusively); R11.2 published messages are immutable (E2, shared with C07) and no plain append extends a published slice; R11.3 in pkg/wrap the close error is written before serverSend is closed and every read is protected by a lock every write holds, or happens on the server side, or is dominated by a receive that observed serverSend closed. R11.1 detail: every access (outside constructors) to a field that is written under its struct's sibling mutex somewhere, or that is in the hand-confirmed guarded table, holds that mutex (any mode for reads, exclusive for writes), with lock sets propagated to unexported helpers and synchronous callbacks. R11.4 stored items are never written after construction (lock-free reads of looked-up items). R11.5 the wrapped stream's trailer is accessed only under one common mutex and its header is written only under headerM while headerC is still open. Does NOT decide race freedom in general: no points-to analysis, no happens-before graph, callbacks supplied by callers are not analysed.",
+		ID:          "C11",
+		Title:       "Concurrent use of the public API is free of data races",
+		Explanation: "Decides structural necessary conditions of race freedom: R11.7 no function appends onto its own variadic parameter (the caller's slice); R11.6 a method of a struct that has no mutex (wrapped-client tables, option structs) never writes its receiver's fields unless it only runs during construction; R11.1 (guarded fields, plus the annotated entry config.rng: every use of the collection's random source happens under one lock held exclusively); R11.2 published messages are immutable (E2, shared with C07) and no plain append extends a published slice; R11.3 in pkg/wrap the close error is written before serverSend is closed and every read is protected by a lock every write holds, or happens on the server side, or is dominated by a receive that observed serverSend closed. R11.1 detail: every access (outside constructors) to a field that is written under its struct's sibling mutex somewhere, or that is in the hand-confirmed guarded table, holds that mutex (any mode for reads, exclusive for writes), with lock sets propagated to unexported helpers and synchronous callbacks. R11.4 stored items are never written after construction (lock-free reads of looked-up items). R11.5 the wrapped stream's trailer is accessed only under one common mutex and its header is written only under headerM while headerC is still open. Does NOT decide race freedom in general: no points-to analysis, no happens-before graph, callbacks supplied by callers are not analysed.",
 		Assumptions: []string{"locks are identified by access path (no aliasing of mutexes)", "sort.Slice/sort.Search and friends invoke their callback synchronously"},
 		Run:         runC11,
 		Controls: []Control{
+			{Name: "revert-F55-append-to-variadic", File: "pkg/trait/lightpb/model.go", Old: "\t\topts = append(append([]resource.WriteOption(nil), opts...), resource.WithMoreUpdatePaths(\"level_percent\"))", New: "\t\topts = append(opts, resource.WithMoreUpdatePaths(\"level_percent\"))", Expect: "R11.7"},
+			{Name: "variadic-capped-before-append", Silent: true, File: "pkg/trait/lightpb/model.go", Old: "\t\topts = append(append([]resource.WriteOption(nil), opts...), resource.WithMoreUpdatePaths(\"level_percent\"))", New: "\t\topts = append(opts[:len(opts):len(opts)], resource.WithMoreUpdatePaths(\"level_percent\"))"},
 			{Name: "revert-F39-trailer-unlocked", File: "pkg/wrap/stream.go", Old: "func (c *clientStream) Trailer() metadata.MD {\n\tc.trailerM.Lock()\n\tdefer c.trailerM.Unlock()\n", New: "func (c *clientStream) Trailer() metadata.MD {\n", Expect: "R11.5"},
 			{Name: "revert-F40-late-setheader", File: "pkg/wrap/stream.go", Old: "func (s *serverStream) SetHeader(md metadata.MD) error {\n\ts.headerM.Lock()\n\tdefer s.headerM.Unlock()\n\n\tselect {\n\tcase <-s.headerC:\n\t\t// like a real server: once the headers have gone out (the client may be reading them) they can't be added to\n\t\treturn errors.New(\"headers already sent\")\n\tdefault:\n\t}\n", New: "func (s *serverStream) SetHeader(md metadata.MD) error {\n", Expect: "R11.5"},
 			{Name: "revert-F35-shared-default-rng", File: "pkg/trait/electricpb/model_opts.go", Old: "\tWithClock(clock.Real()),\n", New: "\tWithClock(clock.Real()),\n\tWithRNG(rand.New(rand.NewSource(rand.Int63()))),\n", Expect: "R11.1"},
@@ -30,6 +32,8 @@ func init() {
 			{Name: "revert-F9-rng-unguarded", File: "pkg/resource/collection.go", Old: "\tc.rngMu.Lock()\n\tdefer c.rngMu.Unlock()\n", New: "", Expect: "config.rng"},
 			{Name: "revert-F10-closeerr-unguarded", File: "pkg/wrap/stream.go", Old: "\ts.closeErrM.Lock()\n\tdefer s.closeErrM.Unlock()\n", New: "", Expect: "R11.3"},
 			{Name: "waste-read-without-lock", File: "pkg/trait/wastepb/model.go", Old: "func (m *Model) GetWasteRecordCount() int {\n\tm.mu.Lock()\n\tdefer m.mu.Unlock()\n", New: "func (m *Model) GetWasteRecordCount() int {\n", Expect: "R11.1"},
+			{Name: "wrapper-caches-adapter", File: "pkg/wrap/wrap.go", Old: "\t\t\tmatched = adaptUnaryToStream(matchedMethod)\n", New: "\t\t\tmatched = adaptUnaryToStream(matchedMethod)\n\t\t\tw.streams[method] = matched\n", Expect: "R11.6"},
+			{Name: "wrapper-adapter-in-local", Silent: true, File: "pkg/wrap/wrap.go", Old: "\t\t\tmatched = adaptUnaryToStream(matchedMethod)\n", New: "\t\t\tadapter := adaptUnaryToStream(matchedMethod)\n\t\t\tmatched = adapter\n"},
 			{Name: "lock-for-reads", Silent: true, File: "pkg/router/router.go", Old: "\tr.mu.RLock()\n\tdefer r.mu.RUnlock()\n\t_, exists := r.registry[name]", New: "\tr.mu.Lock()\n\tdefer r.mu.Unlock()\n\t_, exists := r.registry[name]"},
 		},
 	})
@@ -66,7 +70,11 @@ func runC11(c *an.Ctx) {
 	r026(c, "R11.4")
 	c.Min("R11.4", 3)
 	r115(c)
+	r116(c)
+	r117(c)
 	c.Min("R11.5", 2)
+	c.Min("R11.6", 10)
+	c.Min("R11.7", 1)
 	c.Min("R11.1", 40)
 	c.Min("R11.2", 60)
 	c.Min("R11.3", 4)
@@ -620,4 +628,161 @@ func r115(c *an.Ctx) {
 	if n == 0 {
 		c.Unk(rule, "pkg/wrap.ClientServerStream.header|writes", 0, "no write of the header found")
 	}
+}
+
+// r116: structs without a mutex that are shared between callers (the method tables of a wrapped client, a router's
+// factory, option structs once applied) are safe to use concurrently only because nothing writes them after they were
+// built. Decided for the methods of such structs: a method never writes a field of its receiver - a store, a map
+// update/delete, an element store - unless it only runs on an object nobody else can see yet (unexported, and every
+// caller - or every function that takes it as a method value - uses an object it has just allocated, or is itself such
+// a method: construction, or the state of one call) or is never called at all.
+func r116(c *an.Ctx) {
+	const rule = "R11.6"
+	callers := map[*ssa.Function][]ssa.CallInstruction{}
+	valueUse := map[*ssa.Function]bool{}
+	boundRecv := map[*ssa.Function][]ssa.Value{}
+	for fn := range c.Prog.AllFuncs {
+		an.Instrs(fn, func(in ssa.Instruction) {
+			var ops []*ssa.Value
+			for _, op := range in.Operands(ops) {
+				if op == nil || *op == nil {
+					continue
+				}
+				f, ok := (*op).(*ssa.Function)
+				if !ok {
+					continue
+				}
+				if call, isCall := in.(ssa.CallInstruction); isCall && call.Common().Value == ssa.Value(f) {
+					callers[f] = append(callers[f], call)
+					continue
+				}
+				valueUse[f] = true
+			}
+			// method values: r.method, bound to the receiver they were taken from
+			if mc, ok := in.(*ssa.MakeClosure); ok {
+				if f := an.ClosureFn(mc); f != nil && f != mc.Fn.(*ssa.Function) {
+					if len(mc.Bindings) == 1 {
+						boundRecv[f] = append(boundRecv[f], mc.Bindings[0])
+					} else {
+						valueUse[f] = true
+					}
+				}
+			}
+		})
+	}
+	var constructionOnly func(m *ssa.Function, depth int) bool
+	constructionOnly = func(m *ssa.Function, depth int) bool {
+		if depth > 3 || valueUse[m] {
+			return false
+		}
+		if obj := m.Object(); obj == nil || obj.Exported() {
+			return false
+		}
+		for _, call := range callers[m] {
+			args := call.Common().Args
+			if len(args) == 0 {
+				return false
+			}
+			if an.IsFresh(args[0]) {
+				continue
+			}
+			// the receiver of a caller that is itself a construction-only method of the same object
+			p := call.Parent()
+			if len(p.Params) > 0 && args[0] == ssa.Value(p.Params[0]) && p.Signature.Recv() != nil && constructionOnly(p, depth+1) {
+				continue
+			}
+			return false
+		}
+		// taken as a method value (a callback) only from an object the taking function has just allocated: per-call state
+		for _, r := range boundRecv[m] {
+			if !an.IsFresh(r) {
+				return false
+			}
+		}
+		return true // (also when nothing calls it)
+	}
+	n, nm := 0, 0
+	for _, m := range c.Prog.FuncsIn("") {
+		if c.Prog.IsGenerated(m.Pos()) || m.Signature.Recv() == nil || m.Parent() != nil || len(m.Params) == 0 {
+			continue
+		}
+		recv := m.Params[0]
+		var writes []an.FieldAccess
+		for _, f := range an.WithClosures(m) {
+			for _, a := range an.LockFreeFieldAccesses(f) {
+				n++
+				root := a.Base
+				if i := strings.IndexAny(root, ".["); i >= 0 {
+					root = root[:i]
+				}
+				if a.Write && !a.Fresh && root == recv.Name() {
+					writes = append(writes, a)
+				}
+			}
+		}
+		if len(writes) == 0 {
+			continue
+		}
+		nm++
+		c.SawFunc(an.FuncName(m))
+		if constructionOnly(m, 0) {
+			c.Ok(rule, an.FuncName(m)+"|writes its receiver only during construction", m.Pos(), fmt.Sprintf("%d caller(s) and %d method value(s), each on a freshly allocated object", len(callers[m]), len(boundRecv[m])))
+			continue
+		}
+		seen := map[string]bool{}
+		for _, a := range writes {
+			key := an.FuncName(m) + "|" + a.Kind + " " + a.Struct + "." + a.Field
+			if seen[key] {
+				continue
+			}
+			seen[key] = true
+			c.Bad(rule, key, a.Instr.Pos(), "a method of "+a.Struct+", a struct without a mutex, writes its receiver's field "+a.Field+" ("+a.Kind+") and can run after construction: two callers sharing the object (every user of a wrapped client, of a router, of a model) race on that field")
+		}
+	}
+	c.Count("lock_free_field_accesses_in_methods", n)
+	c.Count("methods_writing_a_lock_free_receiver", nm)
+}
+
+// r117: a variadic parameter is the caller's slice. `f(x, shared...)` passes the backing array of `shared` itself, so
+// append(opts, more) inside f writes the element behind len(shared) whenever the caller's slice has spare capacity: two
+// goroutines calling f with one shared option list write the same array slot. No function of the module appends onto
+// its own variadic parameter; it copies first (append([]T{}, opts...), a three-index slice) or builds a new list.
+func r117(c *an.Ctx) {
+	const rule = "R11.7"
+	n := 0
+	for _, fn := range c.Prog.FuncsIn("") {
+		if c.Prog.IsGenerated(fn.Pos()) || !fn.Signature.Variadic() || len(fn.Params) == 0 || fn.Synthetic != "" {
+			continue
+		}
+		vp := fn.Params[len(fn.Params)-1]
+		n++
+		var bad ssa.Instruction
+		for _, f := range an.WithClosures(fn) {
+			an.Instrs(f, func(in ssa.Instruction) {
+				call, ok := in.(*ssa.Call)
+				if !ok || an.CalleeName(call) != "builtin append" || len(call.Call.Args) == 0 {
+					return
+				}
+				for _, v := range localValues(call.Call.Args[0], 0) {
+					if v == ssa.Value(vp) {
+						bad = in
+					}
+					// opts[:n] keeps the array (only a three-index slice caps it)
+					if sl, isSl := v.(*ssa.Slice); isSl && sl.Max == nil {
+						for _, b := range localValues(sl.X, 0) {
+							if b == ssa.Value(vp) {
+								bad = in
+							}
+						}
+					}
+				}
+			})
+		}
+		if bad != nil {
+			c.SawFunc(an.FuncName(fn))
+			c.Bad(rule, an.FuncName(fn)+"|never appends onto its variadic parameter", bad.Pos(), "append("+vp.Name()+", …) extends the caller's slice in place: called as f(x, shared...) by two goroutines with a shared list that has spare capacity, both write the same slot of its backing array (a data race on the caller's memory, and one call may run with the other's option)")
+		}
+	}
+	c.Count("variadic_functions", n)
+	c.Ok(rule, "module|variadic functions scanned", 0, fmt.Sprintf("%d variadic functions", n))
 }
